@@ -147,3 +147,76 @@ func lexOK(l *lexer) bool { return len(l.src) <= len(l.text) }
 //@   loop 0
 //@     invariant 0 <= i && p <= len(l.src)
 //@     decreases p - i
+
+//@ func containsURL
+//@   props C04
+
+//@ func (*lexer).lexIdentifierOrKeyword
+//@   props C04
+//@   requires lexOK(l)
+//@   requires 1 <= s && s <= len(l.src)
+//@   ensures lexOK(l) && len(l.src) < old(len(l.src)) && len(l.text) == old(len(l.text))
+//@   loop 0
+//@     invariant old(s) <= p && p <= len(l.src)
+//@     decreases len(l.src) - p
+
+// lexNumber: "knowing that src starts with '0'..'9' or '.'".
+//@ func (*lexer).lexNumber
+//@   props C04
+//@   requires lexOK(l)
+//@   requires len(l.src) >= 1 && (isDecDigit(l.src[0]) || l.src[0] == '.')
+//@   ensures lexOK(l)
+//@   ensures len(l.src) <= old(len(l.src))
+//@   ensures len(l.text) == old(len(l.text))
+//@   loop 0
+//@     invariant 0 <= p && p <= len(l.src)
+//@     invariant p == 0 ==> base == 10 && isDecDigit(l.src[0])
+//@     decreases len(l.src) - p
+
+// lexInterpretedString: src starts with '"'.
+//@ func (*lexer).lexInterpretedString
+//@   props C04
+//@   requires lexOK(l)
+//@   requires len(l.src) >= 1
+//@   ensures lexOK(l) && len(l.src) <= old(len(l.src)) && len(l.text) == old(len(l.text))
+//@   loop 0
+//@     invariant 1 <= p && p <= len(l.src)
+//@     invariant len(l.src) == old(len(l.src)) && len(l.text) == old(len(l.text))
+//@     decreases len(l.src) - p
+//@   loop 1
+//@     invariant 0 <= i && i <= n
+//@     invariant len(l.src) == old(len(l.src)) && len(l.text) == old(len(l.text))
+//@     decreases n - i
+//@   loop 2
+//@     invariant len(l.src) == old(len(l.src)) && len(l.text) == old(len(l.text))
+//@     invariant p+2+i <= len(l.src)
+//@   loop 3
+//@     invariant len(l.src) == old(len(l.src)) && len(l.text) == old(len(l.text))
+//@     invariant p+2+i <= len(l.src)
+
+// lexRawString: src starts with '`'.
+//@ func (*lexer).lexRawString
+//@   props C04
+//@   requires lexOK(l)
+//@   requires len(l.src) >= 1
+//@   ensures lexOK(l) && len(l.src) <= old(len(l.src)) && len(l.text) == old(len(l.text))
+//@   loop 0
+//@     invariant 1 <= p && p <= len(l.src)
+//@     invariant len(l.src) == old(len(l.src)) && len(l.text) == old(len(l.text))
+//@     decreases len(l.src) - p
+
+// lexRuneLiteral: src starts with "'".
+//@ func (*lexer).lexRuneLiteral
+//@   props C04
+//@   requires lexOK(l)
+//@   requires len(l.src) >= 1
+//@   ensures lexOK(l) && len(l.src) <= old(len(l.src)) && len(l.text) == old(len(l.text))
+//@   loop 0
+//@     invariant 3 <= i && i <= 5
+//@     decreases 5 - i
+//@   loop 1
+//@     invariant 3 <= i && i <= n+3
+//@     decreases n + 3 - i
+//@   loop 2
+//@     invariant 3 <= i && i <= 5
+//@     decreases 5 - i
